@@ -127,7 +127,12 @@ WIDE_ENV_VALUES = {
 
 def h_conf(eng, case):
     import ndn.client_conf as cc
-    if case.get('odd'):
+    if case.get('schemes'):
+        # store schemes other than the platform's default ones: the location rules do not depend on the scheme
+        FILE_VALUES = {'transport': [None], 'pib': ['pib-memory', 'pib-memory:/gone/p', 'pib-sqlite3:/gone/p', None],
+                       'tpm': ['tpm-memory', 'tpm-osxkeychain:', 'tpm-file:rel/t']}
+        ENV_VALUES = {'transport': [None], 'pib': [None], 'tpm': [None, 'tpm-cng']}
+    elif case.get('odd'):
         # values with characters that mean something to configuration-file parsers (blank + ';' / '#', '=', '%', ':')
         FILE_VALUES = {'transport': [None, 'unix:///srv/run ;1/nfd.sock', 'unix:///srv/a=b/%41.sock'],
                        'pib': [None, 'pib-sqlite3:/data/keys #1', 'pib-sqlite3:/data/k;2'],
@@ -222,6 +227,10 @@ def _conf(eng, case, cc, FILE_VALUES, ENV_VALUES):
         if want is not None:
             eng.check(gl == want, 'store-location', {'item': k, 'got': gl, 'expected': want}, sig=k + '-location')
     # keychain construction from the resolved values
+    if not (got['pib'].startswith('pib-sqlite3') and got['tpm'].startswith('tpm-file')):
+        eng.observe('conf', got)
+        eng.reach('end')
+        return
     try:
         cc.default_keychain(got['pib'], got['tpm'])
         eng.check(('tpm-file', got['tpm'].partition(':')[2]) in log, 'keychain-arguments')
@@ -291,7 +300,8 @@ HARNESSES = {'conf': h_conf, 'face': h_face}
 
 def cases(tier, seed):
     cs = [('conf', {}, {'weight': 100, 'split_depth': 6}), ('conf', {'warm': True}, {'weight': 30, 'split_depth': 5}),
-          ('conf', {'links': True}, {'weight': 30, 'split_depth': 5}), ('conf', {'odd': True}, {'weight': 30, 'split_depth': 5})]
+          ('conf', {'links': True}, {'weight': 30, 'split_depth': 5}), ('conf', {'odd': True}, {'weight': 30, 'split_depth': 5}),
+          ('conf', {'schemes': True}, {'weight': 30, 'split_depth': 5})]
     for i in range(len(URIS)):
         cs.append(('face', {'i': i}))
     if tier != 'quick':
